@@ -92,6 +92,10 @@ def sample_row(pos, fault):
         r['units'] = {FL1: 'RFI', FL2: fl2_units}
     if fault == 'ok':
         return r
+    if pos % 5 == 3 and (fault.startswith('mef-') or fault in ('other-instrument', 'amp-differs', 'voltage-differs')):
+        # these faults only exist for a row that asks for MEF: at this position use an integer (log-amplified) file and ask for it
+        r['file'] = 'cell_4.fcs'
+        r['units'] = {FL1: 'MEF', FL2: fl2_units}
     if fault.startswith('units='):
         r['units'] = {FL1: 'RFI', FL2: fault[6:]}
         return r
